@@ -76,6 +76,8 @@ func (g *G) stmt(bd int) []hs.Stmt {
 		return st
 	}
 	switch {
+	case r < 4 && bd > 0 && g.c.Throws && !g.c.Pure && !g.c.off("exit-nest") && !(g.inExpr > 0 && g.c.off("exit-pending")):
+		return g.exitNest(bd, d)
 	case r < 22:
 		return []hs.Stmt{g.println(d)}
 	case r < 42:
@@ -126,10 +128,13 @@ func (g *G) stmt(bd int) []hs.Stmt {
 		g.push()
 		body := &hs.Block{T: hs.TNull}
 		n := g.intn("nTry", 1, 3)
+		bodyDiverges := false
 		for i := 0; i < n; i++ {
 			body.Stmts = append(body.Stmts, g.stmt(bd-1)...)
 			if g.chance("throwInTry", 35) {
-				body.Stmts = append(body.Stmts, g.throwStmt(d-1, g.chance("guardThrow", 50)))
+				guarded := g.chance("guardThrow", 50)
+				bodyDiverges = bodyDiverges || !guarded
+				body.Stmts = append(body.Stmts, g.throwStmt(d-1, guarded))
 			}
 		}
 		g.pop()
@@ -142,7 +147,9 @@ func (g *G) stmt(bd int) []hs.Stmt {
 			cb.Stmts = append(cb.Stmts, g.stmt(bd-1)...)
 		}
 		// leaving the handler through a loop exit or a return (handlers must be unwound correctly)
-		if !(g.inExpr > 0 && g.c.off("exit-pending")) && g.chance("catchExit", 30) {
+		// (CalmTry: a try whose body always throws and whose handler always exits is never-typed, and so is
+		// every block around it; the static checks of code that depends on such a block are not applied)
+		if !(g.inExpr > 0 && g.c.off("exit-pending")) && !(g.c.CalmTry && bodyDiverges) && g.chance("catchExit", 30) {
 			switch {
 			case g.inLoop > 0 && g.chance("catchBreak", 50):
 				cb.Stmts = append(cb.Stmts, hs.Break{})
@@ -169,6 +176,24 @@ func (g *G) stmt(bd int) []hs.Stmt {
 		if g.chance("noDefault", 40) {
 			m.Arms = m.Arms[:len(m.Arms)-1]
 		}
+		if g.inLoop > 0 && !(g.inExpr > 0 && g.c.off("exit-pending")) && g.chance("matchArmExit", 35) {
+			// a loop exit inside an arm (the default arm included)
+			var ex hs.Stmt = hs.Break{}
+			if g.chance("matchArmContinue", 40) {
+				ex = hs.Continue{}
+			}
+			ai := g.pick("matchExitArm", len(m.Arms))
+			if g.chance("matchExitLastArm", 40) {
+				ai = len(m.Arms) - 1
+			}
+			if blk, ok := m.Arms[ai].Body.(*hs.Block); ok {
+				// the arm's own scope is closed by now (it may shadow outer names): the guard uses literals only
+				conds := []hs.Expr{hs.BoolLit{V: true}, hs.BoolLit{V: false}, hs.Prefix{Op: "!", X: hs.BoolLit{V: false}, T: hs.TBool},
+					hs.Infix{Op: "<", L: hs.IntLit{V: 1}, R: hs.IntLit{V: 2}, T: hs.TBool}}
+				blk.Stmts = append(blk.Stmts, hs.ExprStmt{X: &hs.If{Cond: conds[g.pick("matchExitCond", len(conds))], Then: &hs.Block{Stmts: []hs.Stmt{ex}, T: hs.TNull}, T: hs.TNull}})
+				g.feat("match-arm-exit")
+			}
+		}
 		g.feat("match-stmt")
 		return []hs.Stmt{hs.ExprStmt{X: m}}
 	case r < 97 && g.c.Triggers && g.hasEvent && !g.c.off("trigger"):
@@ -187,6 +212,101 @@ func (g *G) stmt(bd int) []hs.Stmt {
 		return []hs.Stmt{hs.ExprStmt{X: hs.Call{Fn: hs.Ident{Name: names[i]}, Args: []hs.Expr{g.expr(ts[i], d)}, T: hs.TNull}}}
 	}
 	return []hs.Stmt{g.println(d)}
+}
+
+// breakingLoop: a `for` or `while` loop that contains a (guarded) break.
+func (g *G) breakingLoop() hs.Stmt {
+	brk := hs.ExprStmt{X: &hs.If{Cond: g.expr(hs.TBool, 1), Then: &hs.Block{Stmts: []hs.Stmt{hs.Break{}}, T: hs.TNull}, T: hs.TNull}}
+	v := g.fresh("i")
+	pr := hs.ExprStmt{X: hs.Call{Fn: hs.Ident{Name: "println"}, Args: []hs.Expr{hs.StrLit{V: "it"}, hs.Ident{Name: v, T: hs.TInt}}, T: hs.TNull}}
+	g.feat("breaking-loop")
+	if g.chance("breakingWhile", 50) {
+		// while true-ish condition over a counter
+		inc := hs.ExprStmt{X: hs.Assign{Op: "+=", L: hs.Ident{Name: v, T: hs.TInt}, R: hs.IntLit{V: 1}}}
+		return hs.ExprStmt{X: &hs.Block{T: hs.TNull, Stmts: []hs.Stmt{
+			hs.Let{Name: v, X: hs.IntLit{V: 0}},
+			hs.While{Cond: hs.Infix{Op: "<", L: hs.Ident{Name: v, T: hs.TInt}, R: hs.IntLit{V: 3}, T: hs.TBool}, Body: &hs.Block{T: hs.TNull, Stmts: []hs.Stmt{inc, brk, pr}}},
+		}}}
+	}
+	return hs.For{Var: v, Iter: hs.RangeLit{Lo: hs.IntLit{V: 0}, Hi: hs.IntLit{V: 3}}, Body: &hs.Block{T: hs.TNull, Stmts: []hs.Stmt{brk, pr}}}
+}
+
+// exitNest: 2-3 nested try blocks whose innermost body leaves through break / continue / return;
+// around it a loop when the exit needs one. Handlers that a loop exit or a return leaves behind must
+// be gone afterwards: a later throw (generated by the surrounding code or appended here) has to
+// reach the handler the source says - or nobody.
+func (g *G) exitNest(bd, d int) []hs.Stmt {
+	depth := g.intn("nestDepth", 2, 3)
+	kind := g.pick("nestExit", 3) // 0 break, 1 continue, 2 return
+	if kind == 2 && (g.retT == nil || g.retT.K != hs.KNull) {
+		kind = g.pick("nestExitLoop", 2)
+	}
+	var exit hs.Stmt
+	switch kind {
+	case 0:
+		exit = hs.Break{}
+	case 1:
+		exit = hs.Continue{}
+	default:
+		exit = hs.Return{}
+	}
+	g.feat("exit-nest")
+	wrapLoop := kind != 2
+	if wrapLoop {
+		g.inLoop++
+	}
+	var build func(level int) *hs.Block
+	build = func(level int) *hs.Block {
+		b := &hs.Block{T: hs.TNull}
+		g.push()
+		if g.chance("nestPre", 50) {
+			b.Stmts = append(b.Stmts, g.println(1))
+		}
+		if level == 0 {
+			// the exit is always guarded (like every other exit the generator writes): an unconditional exit
+			// makes the enclosing constructs never-typed, and how unreachable code is typed is not
+			// something the property fixes
+			cond := g.expr(hs.TBool, 1)
+			if g.chance("nestExitTaken", 50) {
+				cond = hs.BoolLit{V: true}
+				if g.chance("nestExitTakenNot", 50) {
+					cond = hs.Prefix{Op: "!", X: hs.BoolLit{V: false}, T: hs.TBool}
+				}
+			}
+			b.Stmts = append(b.Stmts, hs.ExprStmt{X: &hs.If{Cond: cond, Then: &hs.Block{Stmts: []hs.Stmt{exit}, T: hs.TNull}, T: hs.TNull}})
+			if g.chance("nestThrowAfter", 40) {
+				b.Stmts = append(b.Stmts, g.throwStmt(1, true))
+			}
+		} else {
+			ev := g.fresh("e")
+			inner := build(level - 1)
+			cb := &hs.Block{T: hs.TNull, Stmts: []hs.Stmt{hs.ExprStmt{X: hs.Call{Fn: hs.Ident{Name: "println"}, Args: []hs.Expr{hs.StrLit{V: "nest"}, hs.IntLit{V: int64(level)}, hs.Member{X: hs.Ident{Name: ev, T: errObjT}, Name: "message", T: hs.TStr}}, T: hs.TNull}}}}
+			b.Stmts = append(b.Stmts, hs.ExprStmt{X: &hs.Try{Body: inner, CatchVar: ev, Catch: cb, T: hs.TNull}})
+			if g.chance("nestPost", 40) {
+				b.Stmts = append(b.Stmts, g.println(1))
+			}
+		}
+		g.pop()
+		return b
+	}
+	body := build(depth)
+	var out []hs.Stmt
+	if wrapLoop {
+		g.inLoop--
+		v := g.fresh("i")
+		out = append(out, hs.For{Var: v, Iter: hs.RangeLit{Lo: hs.IntLit{V: 0}, Hi: hs.IntLit{V: int64(g.intn("nestIter", 1, 3))}}, Body: body})
+	} else {
+		out = append(out, body.Stmts...)
+	}
+	// a throw right behind the construct: with stale handlers it lands in a dead catch block
+	if !g.c.off("uncaught-throw") && g.chance("nestTailThrow", 35) {
+		out = append(out, g.throwStmt(1, true)) // guarded: an unconditional throw would make the enclosing block never-typed
+	} else if g.chance("nestTailCaught", 40) {
+		ev := g.fresh("e")
+		cb := &hs.Block{T: hs.TNull, Stmts: []hs.Stmt{hs.ExprStmt{X: hs.Call{Fn: hs.Ident{Name: "println"}, Args: []hs.Expr{hs.StrLit{V: "after"}, hs.Member{X: hs.Ident{Name: ev, T: errObjT}, Name: "message", T: hs.TStr}}, T: hs.TNull}}}}
+		out = append(out, hs.ExprStmt{X: &hs.Try{Body: &hs.Block{T: hs.TNull, Stmts: []hs.Stmt{g.throwStmt(1, false)}}, CatchVar: ev, Catch: cb, T: hs.TNull}})
+	}
+	return out
 }
 
 func (g *G) letStmt(d int) hs.Stmt {
@@ -566,7 +686,33 @@ func (g *G) fnDef(name string, isMain bool) hs.FnDef {
 	for i := 0; i < n; i++ {
 		body.Stmts = append(body.Stmts, g.stmt(g.c.BlockDepth)...)
 	}
-	if f.Ret.K != hs.KNull {
+	if f.Ret.K != hs.KNull && !g.c.off("return-tail") && g.chance("returnTail", 10) {
+		// the result is handed back by a final `return v;` statement instead of a tail expression
+		body.Stmts = append(body.Stmts, hs.Return{X: g.expr(f.Ret, g.c.MaxDepth)})
+		g.feat("return-tail")
+	} else if f.Ret.K != hs.KNull && !g.c.off("diverging-tail") && g.chance("divergingTail", 12) {
+		// The function's result comes from a `loop` that is only left through `return`: the loop has no
+		// `break` of its own, so the function needs no tail expression. Loops WITH a break before it and
+		// nested inside it must not change that (each loop's exits are its own).
+		if g.chance("breakLoopBefore", 50) {
+			body.Stmts = append(body.Stmts, g.breakingLoop())
+		}
+		lb := &hs.Block{T: hs.TNull}
+		savedLoop := g.inLoop
+		g.inLoop = 0 // statements of the body must not break / continue THIS loop
+		g.push()
+		if g.chance("breakLoopInside", 50) {
+			lb.Stmts = append(lb.Stmts, g.breakingLoop())
+		}
+		for i, k := 0, g.intn("nDivBody", 0, 2); i < k; i++ {
+			lb.Stmts = append(lb.Stmts, g.stmt(1)...)
+		}
+		lb.Stmts = append(lb.Stmts, hs.Return{X: g.expr(f.Ret, g.c.MaxDepth-1)})
+		g.pop()
+		g.inLoop = savedLoop
+		body.Stmts = append(body.Stmts, hs.Loop{Body: lb})
+		g.feat("diverging-loop-tail")
+	} else if f.Ret.K != hs.KNull {
 		body.Tail = g.expr(f.Ret, g.c.MaxDepth)
 		// a function that returns from inside a try block (its handler must be gone afterwards)
 		if g.c.Throws && !g.c.Pure && g.chance("returnFromTry", 20) {
